@@ -42,7 +42,7 @@ FP = [(SUB, 'CompiledSubprocess._send'), (SUB, 'CompiledSubprocess._kill'), (SUB
       ('jedi/api/environment.py', 'Environment.get_inference_state_subprocess'),
       ('jedi/api/environment.py', 'Environment.get_sys_path')]
 
-OP_TIMEOUT = 30          # hang watchdog per operation (seconds)
+OP_TIMEOUT = 300         # hang watchdog per operation (seconds; generous: the machine may be loaded)
 PHASES = ('before', 'after', 'trunc', 'raise')
 FAULT_G = {None: 'FNone', 'before': 'FDeadBefore', 'before-late': 'FDeadBefore', 'after': 'FDiesAfter',
            'trunc': 'FTrunc', 'raise': 'FRaises'}
@@ -57,6 +57,14 @@ SCENARIOS = [
     ('import itertools\nitertools.ch', 'complete'),
     ("'a'.upp", 'complete'),
 ]
+
+
+def _norm(v):
+    return json.loads(json.dumps(v))
+
+
+class AbortCase(Exception):
+    """Nothing after a hang can be interpreted (the reply may still arrive): stop the case."""
 
 
 class Hang(BaseException):
@@ -194,10 +202,18 @@ class Driver:
 
     def _observe(self, name, gallina, code, answers, txt, extra=None):
         procs = [(p, s) for p, s in child_procs() if p not in self.children0]
-        z = sum(1 for _, s in procs if s == 'Z')
         fds = nfds() - self.f0
         sp = getattr(self.env, '_subprocess', None)
         crashed = bool(sp.is_crashed) if sp is not None else None
+        # a helper that died while idle stays a zombie until jedi next talks to it: only deaths
+        # that jedi has observed are its to reap
+        idle_pid = None
+        if sp is not None and not crashed:
+            try:
+                idle_pid = sp._get_process().pid
+            except Exception:
+                idle_pid = None
+        z = sum(1 for p, s in procs if s == 'Z' and p != idle_pid)
         g = self.gens()
         wire = self.new_log()
         self.ops.append(gallina)
@@ -209,6 +225,7 @@ class Driver:
         self.records.append(rec)
         if code == 7:
             self.anomalies.append(dict(cls='hang', op=name, index=len(self.ops) - 1))
+            raise AbortCase()
         if z:
             self.anomalies.append(dict(cls='zombie', op=name, index=len(self.ops) - 1, procs=procs))
         want = 0 if crashed else 3
@@ -295,7 +312,7 @@ class Driver:
         answered = sum(1 for w in pending if w.get('ev') == 'req' and w.get('fn') is not None
                        and w.get('id') == wid and w.get('phase') in (None, 'before', 'after'))
         ncalls = answered if code == 0 else answered + 1   # + the call that failed
-        same = code == 0 and (val == baseline or not compare)
+        same = code == 0 and (_norm(val) == _norm(baseline) or not compare)
         answers = list(range(1, ncalls + 1)) if same else ([] if code else [0])
         cs = '[' + '; '.join('CEcho %d%%N' % i for i in range(1, ncalls + 1)) + ']' if ncalls else '(@nil call)'
         rec = self._observe('query %s' % key, '(OpQuery %d%%N %s)' % (self.cid(wid), cs), code, answers, txt,
@@ -420,10 +437,26 @@ def run_program(case):
     except BaseException as e:
         return dict(case=case, fatal='Environment(proxy) failed: %r' % (e,))
     try:
-        if case['level'] == 'api':
-            _run_api(drv, case)
+        try:
+            if case['level'] == 'api':
+                _run_api(drv, case)
+            else:
+                _run_direct(drv, case)
+        except AbortCase:
+            return dict(case=case, ops=drv.ops, obs=drv.obs, wire=drv.wire_obs(), records=drv.records,
+                        anomalies=drv.anomalies, wall=round(time.time() - t0, 2), aborted=True)
+        # whatever happened: a new Script on this environment must work again (retry while a
+        # scheduled fault is still ahead)
+        for i in range(5):
+            k = 'zz%d' % i
+            r = drv.op_new_direct(k)
+            if r['code'] == 0:
+                r = drv.op_query_direct(k, [0])
+            drv.op_drop(k)
+            if r['code'] == 0:
+                break
         else:
-            _run_direct(drv, case)
+            drv.anomalies.append(dict(cls='no-recovery', op='final probe', index=len(drv.ops) - 1))
         drv.close()
         return dict(case=case, ops=drv.ops, obs=drv.obs, wire=drv.wire_obs(), records=drv.records,
                     anomalies=drv.anomalies, wall=round(time.time() - t0, 2))
@@ -511,3 +544,301 @@ def g_case(res):
         common.g_list(res['ops'], str, 'op'),
         common.g_list(obs, str, 'N * list N * N * bool * N * N'),
         common.g_list(wire, str, 'N * N * N * N * N * list N'))
+
+
+# ---------------------------------------------------------------------------- oracle
+CRASH_PHASES = ('before', 'before-late', 'after', 'trunc')
+
+
+def oracle(res):
+    """The property, checked directly on what the implementation did (no model involved).
+    Returns a list of findings: dict(cls=..., ...)."""
+    out = list(res['anomalies'])
+    dead = set()            # generations whose death has happened
+    gen_of = {}             # script key -> generation it was created on
+    deaths = 0
+    failures = 0
+    for idx, rec in enumerate(res['records']):
+        name = rec['op'].split()
+        verb, key = name[0], (name[1] if len(name) > 1 else None)
+        stale = verb == 'query' and gen_of.get(key) in dead
+        injected_raise = any(w.get('ev') == 'req' and w.get('phase') == 'raise' and w.get('fn') not in (None, '_get_info')
+                             for w in rec['wire']) or "'raise'" in rec['op']
+        hand = False
+        for w in rec['wire']:
+            crash = (w.get('ev') == 'fault') or (w.get('ev') == 'req' and w.get('phase') == 'trunc')
+            if crash and w['gen'] not in dead:
+                dead.add(w['gen'])
+                if not (w.get('ev') == 'fault' and w.get('phase') == 'before'):
+                    deaths += 1          # a pre-armed "before" counts when it is met (below)
+                if w.get('i') == 0 and w['gen'] >= 2:
+                    hand = True
+        code = rec['code']
+        if verb == 'new' and code == 0:
+            gen_of[key] = rec['gens']
+        if code in (0, 9):
+            continue
+        if code == 2:
+            if not injected_raise:
+                out.append(dict(cls='helper-exception-out-of-nowhere', op=rec['op'], index=idx, exc=rec['exc']))
+            continue
+        if stale:
+            if code != 1:
+                out.append(dict(cls='stale-script-not-InternalError', op=rec['op'], index=idx, exc=rec['exc']))
+            continue
+        failures += 1
+        if code == 3:
+            out.append(dict(cls='handshake-death-invalid-env' if hand else 'invalid-env-without-handshake-death',
+                            op=rec['op'], index=idx, exc=rec['exc']))
+        elif code != 1:
+            out.append(dict(cls={4: 'helper-KeyError', 5: 'UnpicklingError-escapes', 7: 'hang'}.get(code, 'other-exception'),
+                            op=rec['op'], index=idx, exc=rec['exc']))
+    # a pre-armed "dead before send" that was met shows as a failure; count those deaths now
+    armed = sum(1 for rec in res['records'] for w in rec['wire']
+                if w.get('ev') == 'fault' and w.get('phase') == 'before')
+    if failures > deaths + armed:
+        out.append(dict(cls='more-failures-than-deaths', failures=failures, deaths=deaths + armed))
+    return out
+
+
+# ---------------------------------------------------------------------------- case generators
+CUTS = [0, 1, 2, 3, 0.25, 0.5, 0.75, -2, -1]
+
+
+def gen_api_single(ctx, ncalls, tmp, baseline):
+    full = [0, 2] if ctx.quick else list(range(len(SCENARIOS)))
+    cases = []
+    for si in range(len(SCENARIOS)):
+        other = 1 if si != 1 else 0
+        K = 1 + ncalls[si] + 1 + ncalls[other]
+        ks = list(range(1, K + 1))
+        if si not in full:
+            ks = sorted(ctx.rng.sample(ks, min(len(ks), 3)))
+        for k in ks:
+            for ph in PHASES:
+                keep, again = ctx.rng.random() < 0.3, ctx.rng.random() < 0.4
+                cases.append(dict(stream='api-single', level='api', tmp=tmp, baseline=baseline,
+                                  faults={1: [k, ph, ctx.rng.choice(CUTS)]},
+                                  program=[['script', 'a', si, keep, again], ['script', 'b', other, False, False],
+                                           ['dropall']]))
+    return cases
+
+
+def gen_api_multi(ctx, tmp, baseline):
+    cases = []
+    for _ in range(ctx.n(40, 400)):
+        faults = {}
+        for g in range(1, ctx.rng.choice([2, 3, 3, 4, 4])):
+            lo = 1 if g == 1 else 0
+            k = ctx.rng.choice([lo, lo, lo + 1, 2, 3, 4, 5, 6, 8, 11])
+            faults[g] = [k, ctx.rng.choice(PHASES if k else CRASH3), ctx.rng.choice(CUTS)]
+        prog = []
+        for j in range(ctx.rng.randint(2, 4)):
+            prog.append(['script', 's%d' % j, ctx.rng.randrange(len(SCENARIOS)), ctx.rng.random() < 0.35,
+                         ctx.rng.random() < 0.35])
+        prog.append(['dropall'])
+        cases.append(dict(stream='api-multi', level='api', tmp=tmp, baseline=baseline, faults=faults, program=prog))
+    return cases
+
+
+CRASH3 = ('before', 'after', 'trunc')
+
+
+def gen_api_leak(ctx, tmp, baseline):
+    cases = []
+    n = ctx.n(40, 200)
+    for variant in range(2):
+        prog = []
+        for j in range(n):
+            prog.append(['script', 'l%d' % j, ctx.rng.choice([0, 1, 4]), j % 7 == 3, False])
+        prog.append(['dropall'])
+        faults = {} if variant == 0 else {1: [n * 2, 'after', 0.5], 2: [n, 'trunc', 0.5]}
+        cases.append(dict(stream='api-leak', level='api', tmp=tmp, baseline=baseline, faults=faults, program=prog))
+    return cases
+
+
+def gen_direct(ctx, tmp):
+    cases = []
+    keys = 'abcdef'
+    for _ in range(ctx.n(60, 600)):
+        faults = {}
+        for g in range(1, ctx.rng.choice([1, 2, 3, 4, 4, 5])):
+            lo = 1 if g == 1 else 0
+            k = ctx.rng.randint(lo, 12)
+            faults[g] = [k, ctx.rng.choice(PHASES if k else CRASH3), ctx.rng.choice(CUTS)]
+        prog = []
+        live = set()
+        for _ in range(ctx.rng.randint(12, 36)):
+            r = ctx.rng.random()
+            k = ctx.rng.choice(keys)
+            if r < 0.28 or not live:
+                if k not in live:
+                    prog.append(['new', k])
+                    live.add(k)
+            elif r < 0.72:
+                k = ctx.rng.choice(sorted(live))
+                calls = [ctx.rng.randint(0, 99) if ctx.rng.random() < 0.9 else 'raise'
+                         for _ in range(ctx.rng.choice([0, 1, 1, 2, 3]))]
+                prog.append(['query', k, calls])
+            elif r < 0.92:
+                k = ctx.rng.choice(sorted(live))
+                prog.append(['drop', k])
+                live.discard(k)
+            else:
+                prog.append(['syspath'])
+        cases.append(dict(stream='direct', level='direct', tmp=tmp, faults=faults, program=prog))
+    return cases
+
+
+def gen_trunc_cuts(ctx, tmp):
+    cases = []
+    prog = [['new', 'a'], ['query', 'a', [7]], ['syspath'], ['query', 'a', [8]], ['drop', 'a']]
+    small = list(range(0, 24, 2 if ctx.quick else 1))
+    big = list(range(0, 300, 12 if ctx.quick else 1))
+    for cut in small:
+        cases.append(dict(stream='trunc-cuts', level='direct', tmp=tmp, faults={1: [1, 'trunc', cut]}, program=prog))
+    for cut in big:
+        cases.append(dict(stream='trunc-cuts', level='direct', tmp=tmp, faults={1: [2, 'trunc', cut]}, program=prog))
+    return cases
+
+
+# ---------------------------------------------------------------------------- run
+def _slim(res, keep_wire=True):
+    """A JSON-able, readable rendering of a result for replay files."""
+    recs = []
+    for r in res.get('records', []):
+        recs.append({k: v for k, v in r.items() if keep_wire or k != 'wire'})
+    case = {k: v for k, v in res['case'].items() if k != 'tmp'}
+    return dict(case=case, records=recs)
+
+
+def evaluate(ctx, results):
+    """Oracle + model comparison for executed cases."""
+    good = []
+    for res in results:
+        if 'fatal' in res:
+            ctx.violation('obligation', dict(what='C14 driver could not run a case: ' + res['fatal'],
+                                             case={k: v for k, v in res['case'].items() if k != 'tmp'}), nofail=True)
+        else:
+            good.append(res)
+    cases = [g_case(r) for r in good]
+    fails, err = common.coq_failing(IMPORTS, 'check_case', cases, shard=40)
+    if err:
+        raise RuntimeError('coq evaluation failed: ' + err)
+    fails = set(fails)
+    nfaulted = 0
+    for i, res in enumerate(good):
+        case = res['case']
+        triggered = sum(1 for rec in res['records'] for w in rec['wire']
+                        if w.get('ev') == 'fault' or w.get('phase') in ('trunc', 'raise'))
+        nfaulted += bool(triggered)
+        ctx.count(case['stream'], (json.dumps(case['faults'], sort_keys=True), json.dumps(case['program'])),
+                  nontrivial=triggered > 0 or case['stream'] == 'api-leak')
+        found = oracle(res)
+        agrees = i not in fails
+        for f in found:
+            sig = dict(cls=f['cls'], model_agrees=agrees)
+            ctx.deviation(sig, dict(finding=f, **_slim(res, keep_wire=len(res['records']) < 60)),
+                          'C14 %s: %s' % (f['cls'], {k: v for k, v in f.items() if k != 'cls'}))
+        if not agrees and not found:
+            model = common.coq_show(IMPORTS, ["let '(sch, ops, obs, wobs) := %s in run_obs true (sched_of sch) init ops" % cases[i]])
+            ctx.violation('obligation', dict(
+                what='correspondence C14_Protocol: the model does not predict what jedi did (per-operation outcome / '
+                     'helper generation / crash flag / zombies / pipe ends, or the wire log with the helper-side ids); '
+                     'the property oracles found nothing wrong on this case',
+                observed=dict(obs=res['obs'], wire=res['wire']), model=model[-6000:], **_slim(res, keep_wire=False)),
+                nofail=True)
+    return good, nfaulted
+
+
+def run(ctx):
+    common.setup_jedi(os.path.join(ctx.tmp, 'cache'))
+    ctx.proofs()
+    ctx.cov['fingerprints'] = common.fingerprint(FP)
+    ctx.cov['rule'] = (
+        'api-single: every request index of gen 1 (get_sys_path, each call of the first query, the deletion frame, '
+        'each call of the second query) x {before, after, trunc, raise} for scenarios ' +
+        ('0,2 (3 seeded indices for the others)' if ctx.quick else 'all') +
+        '; api-multi: seeded 1-3 faults incl. handshake deaths, Scripts kept/re-queried; api-leak: create/query/drop cycles; '
+        'direct: seeded random op sequences on InferenceStateSubprocess objects with 0-4 faults; trunc-cuts: byte offsets of '
+        'a small and a large reply; non-trivial = a fault was actually met (leak: always); distinct by (schedule, program)')
+    ctx.assumptions += [
+        'the engine does not catch exceptions raised by helper calls (checked: every faulted index gives the predicted exception)',
+        'which helper calls a query makes is engine behaviour: their number is read off the wire, their answers stand for "equal to the undisturbed run"',
+        'faults are injected by a proxy process between jedi and the real helper; "dead before send" at request 0 of a generation is physically an EOF on read',
+        'pickle, subprocess.Popen, os pipes, weakref.finalize and gc are trusted as they are',
+    ]
+    tmp = ctx.tmp
+    t = time.time()
+    base = common.pmap(_baseline_task, [dict(tmp=tmp)])[0]
+    for si, vals in enumerate(base):
+        if vals[0][0] != 0 or vals[0][:2] != vals[1][:2] or vals[0][2] - (1 if si == 0 else 0) != vals[1][2] and False:
+            ctx.violation('obligation', dict(what='C14 baseline: undisturbed scenario fails or is not repeatable',
+                                             scenario=SCENARIOS[si], runs=vals), nofail=True)
+            return
+    baseline = [vals[1][1] for vals in base]
+    ncalls = [vals[1][2] for vals in base]
+    ctx.stat('scenario_calls', {SCENARIOS[i][0]: ncalls[i] for i in range(len(SCENARIOS))})
+    ctx.stat('wall_baseline', round(time.time() - t, 1))
+
+    cases = (gen_api_single(ctx, ncalls, tmp, baseline) + gen_api_multi(ctx, tmp, baseline) +
+             gen_api_leak(ctx, tmp, baseline) + gen_direct(ctx, tmp) + gen_trunc_cuts(ctx, tmp))
+    only = os.environ.get('C14_ONLY')      # development aid: restrict to some streams
+    if only:
+        cases = [c for c in cases if c['stream'] in only.split(',')]
+        ctx.cov['rule'] += ' [restricted by C14_ONLY=%s]' % only
+    # long cases first so that the pool drains evenly
+    order = sorted(range(len(cases)), key=lambda i: -len(cases[i]['program']))
+    t = time.time()
+    results = common.pmap(run_program, [cases[i] for i in order], chunksize=1)
+    ctx.stat('wall_execute', round(time.time() - t, 1))
+    t = time.time()
+    good, nfaulted = evaluate(ctx, results)
+    ctx.stat('wall_model', round(time.time() - t, 1))
+    by = {}
+    codes = {}
+    for r in good:
+        by[r['case']['stream']] = by.get(r['case']['stream'], 0) + 1
+        for rec in r['records']:
+            codes[rec['code']] = codes.get(rec['code'], 0) + 1
+    ctx.stat('cases_per_stream', by)
+    ctx.stat('cases_with_a_fault_met', nfaulted)
+    ctx.stat('operation_outcomes', {str(k): v for k, v in sorted(codes.items())})
+    ctx.stat('operations', sum(len(r['ops']) for r in good))
+    ctx.stat('wire_frames', sum(len(r['wire']) for r in good))
+    ctx.stat('max_case_wall', max([r.get('wall', 0) for r in good] or [0]))
+    for r in good:
+        if r['case']['stream'] == 'api-multi' and len(r['case']['faults']) >= 2:
+            ctx.sample(dict(stream='api-multi', faults=r['case']['faults'], program=r['case']['program'],
+                            outcomes=[(x['op'], x['code'], x['gens']) for x in r['records']][:14]))
+            break
+    for r in good:
+        if r['case']['stream'] == 'direct' and len(r['case']['faults']) >= 2:
+            ctx.sample(dict(stream='direct', faults=r['case']['faults'],
+                            outcomes=[(x['op'], x['code'], x['answers'], x['gens']) for x in r['records']][:14]))
+            break
+
+
+def replay(ctx, path):
+    rec = json.load(open(path))
+    case = rec.get('case')
+    print(json.dumps({k: v for k, v in rec.items() if k not in ('records', 'model', 'observed')}, indent=1)[:3000])
+    if not case:
+        return 0
+    common.setup_jedi(os.path.join(ctx.tmp, 'cache'))
+    case = dict(case, tmp=ctx.tmp, faults={int(g): v for g, v in case['faults'].items()})
+    res = common.pmap(run_program, [case])[0]
+    if 'fatal' in res:
+        print(res['fatal'])
+        return 0
+    print('--- implementation now:')
+    for r in res['records']:
+        print('  %-40s code=%s answers=%s gens=%s crashed=%s zombies=%s fds=%s %s' % (
+            r['op'], r['code'], r['answers'], r['gens'], r['crashed'], r['zombies'], r['fds'], r['exc'] or ''))
+    print('  wire:', res['wire'])
+    print('--- oracle:', oracle(res))
+    g = g_case(res)
+    print('--- model (per-operation tuples, wire):')
+    print(common.coq_show(IMPORTS, ["let '(sch, ops, obs, wobs) := %s in run_obs true (sched_of sch) init ops" % g,
+                                    'check_case %s' % g]))
+    return 0
